@@ -31,7 +31,7 @@ func TestCheck(t *testing.T) {
 	}
 	run := vlib.Start("C14", "model_checking")
 	core := []string{"tx:t1", "tx:g1", "sync", "svc:back", "svc:ahead", "svc:fork", "svc:wipe", "retain", "drop", "create", "restartP"}
-	faults := []string{"tx:t1", "sync", "sync:wt-before", "sync:wt-after", "sync:wt-partial", "sync:pm", "sync:fs", "sync:fs-partial", "svc:ahead", "retain"}
+	faults := []string{"tx:t1", "sync", "sync:wt-before", "sync:wt-after", "sync:wt-partial", "sync:pm", "sync:pm-omit", "sync:fs", "sync:fs-partial", "svc:ahead", "retain"}
 	failover := []string{"tx:t1", "sync", "heal", "part", "demote", "retain"}
 	batch := []string{"tx:t1", "sync", "retain", "svc:back", "sync:wt-after"}
 	var jobs []hist.Job
@@ -64,6 +64,6 @@ func TestCheck(t *testing.T) {
 	cov := hist.RunJobs(run, jobs)
 	run.Finish(cov, append(hist.CommonAssumptions,
 		"The service's durable state is a directory of LTX files (the file client's own layout; the local LiteFS Cloud server keeps the same layout and checks contiguity itself). Sync events are single Store.SyncBackup calls on an idle primary; the loop jobs run the store's own continuous loop (1 s batching delay, 1 s retry, position map cached for the whole history) on the fake clock and judge it 20 fake seconds after each event.",
-		"Faults are injected one per sync at the client interface: upload refused, upload stored but reply lost, upload cut after 150 bytes, position map unavailable, snapshot unavailable, snapshot cut after 220 bytes.",
+		"Faults are injected one per sync at the client interface: upload refused, upload stored but reply lost, upload cut after 150 bytes, position map unavailable, position map answered without any database (stale listing: the primary then uploads a snapshot onto a service that has a chain), snapshot unavailable, snapshot cut after 220 bytes.",
 		"The wrapper closes the upload pipe when the client returns, as an HTTP transport does; the store itself never closes it (goroutine leak on early client errors, outside this property)."))
 }
